@@ -68,6 +68,7 @@ type State struct {
 	Result   Value
 	Lenient  bool // package initialisation mode
 	Unchecked int // lazily added path-condition conjuncts since the last feasibility check
+	Choice   string // verifChoice decisions taken; only states with equal tags merge
 	Barrier  int  // no merging until Steps exceeds this (set by concretisation forks)
 	Notes    []string
 }
@@ -162,6 +163,7 @@ type Alt struct {
 	Ret  Value
 	// Panic, if non-empty, makes this alternative a Go panic with that message.
 	Panic string
+	Tag   string // appended to the state's choice tag (prevents re-merging of deliberate splits)
 }
 
 func NewExec(prog *ssa.Program, ctx *Ctx, solver *Solver) *Exec {
@@ -205,7 +207,7 @@ func (s *State) top() *Frame { return s.Stack[len(s.Stack)-1] }
 
 func (ex *Exec) clone(s *State) *State {
 	n := &State{Heap: make(map[int]*Object, len(s.Heap)), PC: append([]*Term{}, s.PC...), Status: s.Status,
-		Msg: s.Msg, SymCount: map[string]int{}, Syms: append([]SymRec{}, s.Syms...), Steps: s.Steps, Lenient: s.Lenient, Barrier: s.Barrier, Unchecked: s.Unchecked}
+		Msg: s.Msg, SymCount: map[string]int{}, Syms: append([]SymRec{}, s.Syms...), Steps: s.Steps, Lenient: s.Lenient, Barrier: s.Barrier, Unchecked: s.Unchecked, Choice: s.Choice}
 	ex.nextState++
 	n.ID = ex.nextState
 	for k, v := range s.Heap {
@@ -389,33 +391,58 @@ func (ex *Exec) navigate(v Value, pe PE) (Value, error) {
 }
 
 func (ex *Exec) loadPath(v Value, path []PE) (Value, error) {
+	return ex.loadPathIn(nil, v, path)
+}
+
+// loadPathIn: st (may be nil) is used to prune infeasible indices when the elements
+// selected by a symbolic index cannot be merged into one value.
+func (ex *Exec) loadPathIn(st *State, v Value, path []PE) (Value, error) {
 	for k, pe := range path {
 		if pe.Sym != nil {
-			var acc Value
-			for i := pe.N - 1; i >= 0; i-- {
-				sub, err := ex.navigate(v, PE{I: pe.I + i})
-				if err != nil {
-					return nil, err
-				}
-				r, err := ex.loadPath(sub, path[k+1:])
-				if err != nil {
-					return nil, err
+			try := func(only map[int]bool) (Value, error) {
+				var acc Value
+				for i := pe.N - 1; i >= 0; i-- {
+					if only != nil && !only[i] {
+						continue
+					}
+					sub, err := ex.navigate(v, PE{I: pe.I + i})
+					if err != nil {
+						return nil, err
+					}
+					r, err := ex.loadPathIn(st, sub, path[k+1:])
+					if err != nil {
+						return nil, err
+					}
+					if acc == nil {
+						acc = r
+						continue
+					}
+					g := ex.Ctx.Eq(pe.Sym, ex.Ctx.BV(pe.Sym.S.W, uint64(i)))
+					m, ok := ex.Ctx.mergeVal(g, r, acc)
+					if !ok {
+						return nil, errNonMergeable
+					}
+					acc = m
 				}
 				if acc == nil {
-					acc = r
-					continue
+					return nil, unsupported("symbolic index into empty range")
 				}
-				g := ex.Ctx.Eq(pe.Sym, ex.Ctx.BV(pe.Sym.S.W, uint64(i)))
-				m, ok := ex.Ctx.mergeVal(g, r, acc)
-				if !ok {
-					return nil, unsupported("symbolic-index load of non-mergeable values")
+				return acc, nil
+			}
+			r, err := try(nil)
+			if err == errNonMergeable && st != nil && pe.N <= 64 {
+				feas := map[int]bool{}
+				for i := 0; i < pe.N; i++ {
+					if ex.checkSat(st, ex.Ctx.Eq(pe.Sym, ex.Ctx.BV(pe.Sym.S.W, uint64(i)))) != Unsat {
+						feas[i] = true
+					}
 				}
-				acc = m
+				r, err = try(feas)
 			}
-			if acc == nil {
-				return nil, unsupported("symbolic index into empty range")
+			if err == errNonMergeable {
+				return nil, unsupported("symbolic-index load of non-mergeable values")
 			}
-			return acc, nil
+			return r, err
 		}
 		var err error
 		v, err = ex.navigate(v, pe)
@@ -426,6 +453,8 @@ func (ex *Exec) loadPath(v Value, path []PE) (Value, error) {
 	return v, nil
 }
 
+var errNonMergeable = &execError{"non-mergeable"}
+
 func (ex *Exec) load(s *State, p Ptr) (Value, error) {
 	if p.Obj == 0 {
 		return nil, &goPanic{"nil pointer dereference"}
@@ -434,7 +463,7 @@ func (ex *Exec) load(s *State, p Ptr) (Value, error) {
 	if o == nil {
 		return nil, &execError{fmt.Sprintf("INTERNAL dangling object %d", p.Obj)}
 	}
-	v, err := ex.loadPath(o.V, p.Path)
+	v, err := ex.loadPathIn(s, o.V, p.Path)
 	if err != nil {
 		return nil, err
 	}
